@@ -197,7 +197,11 @@ def runOp (ctx : Ctx) (op : Json) : Except String Json := do
           | _ => break
         | "peek" =>
           -- decode the current object into a fresh struct without changing the current struct
-          out := out.push (fromJson (copyFrom ov m tf (.struct [])))
+          let r := copyFrom ov m tf (.struct [])
+          out := out.push (fromJson r)
+          match r with
+          | .ok _ => pure ()
+          | _ => break
         | _ => throw "bad step"
       return Json.mkObj [("steps", .arr out)]
     | _ => return Json.mkObj [("error", .str "unknown op")]
